@@ -128,42 +128,48 @@ Definition heq_top (h : heap) (a b : hval) : eqres :=
   end.
 
 (* ---------- deepCopy ---------- *)
+(* the two traversals of deepCopy, over the copy function of the level below *)
+Fixpoint copy_els (cp : hval -> heap -> option (hval * heap)) (els : list hval) (h : heap)
+  : option (list hval * heap) :=
+  match els with
+  | [] => Some ([], h)
+  | x :: t =>
+      match cp x h with
+      | None => None
+      | Some (x', h1) =>
+          match copy_els cp t h1 with
+          | None => None
+          | Some (t', h2) => Some (x' :: t', h2)
+          end
+      end
+  end.
+Fixpoint copy_pairs (cp : hval -> heap -> option (hval * heap)) (m : list (list N * hval)) (h : heap)
+  : option (list (list N * hval) * heap) :=
+  match m with
+  | [] => Some ([], h)
+  | (k, x) :: t =>
+      match cp x h with
+      | None => None
+      | Some (x', h1) =>
+          match copy_pairs cp t h1 with
+          | None => None
+          | Some (t', h2) => Some ((k, x') :: t', h2)
+          end
+      end
+  end.
+
 Fixpoint hcopy (fuel : nat) (v : hval) (h : heap) {struct fuel} : option (hval * heap) :=
   match fuel with
   | O => None
   | S f =>
       match v with
       | HArr l =>
-          match (fix go (els : list hval) (h : heap) : option (list hval * heap) :=
-                   match els with
-                   | [] => Some ([], h)
-                   | x :: t =>
-                       match hcopy f x h with
-                       | None => None
-                       | Some (x', h1) =>
-                           match go t h1 with
-                           | None => None
-                           | Some (t', h2) => Some (x' :: t', h2)
-                           end
-                       end
-                   end) (arr_at h l) h with
+          match copy_els (hcopy f) (arr_at h l) h with
           | None => None
           | Some (els', h') => let (l', h'') := halloc (CArr els') h' in Some (HArr l', h'')
           end
       | HMap order l =>
-          match (fix go (m : list (list N * hval)) (h : heap) : option (list (list N * hval) * heap) :=
-                   match m with
-                   | [] => Some ([], h)
-                   | (k, x) :: t =>
-                       match hcopy f x h with
-                       | None => None
-                       | Some (x', h1) =>
-                           match go t h1 with
-                           | None => None
-                           | Some (t', h2) => Some ((k, x') :: t', h2)
-                           end
-                       end
-                   end) (map_at h l) h with
+          match copy_pairs (hcopy f) (map_at h l) h with
           | None => None
           | Some (m', h') => let (l', h'') := halloc (CMap m') h' in Some (HMap order l', h'')
           end
@@ -171,19 +177,8 @@ Fixpoint hcopy (fuel : nat) (v : hval) (h : heap) {struct fuel} : option (hval *
       end
   end.
 
-Fixpoint hcopy_list (fuel : nat) (els : list hval) (h : heap) : option (list hval * heap) :=
-  match els with
-  | [] => Some ([], h)
-  | x :: t =>
-      match hcopy fuel x h with
-      | None => None
-      | Some (x', h1) =>
-          match hcopy_list fuel t h1 with
-          | None => None
-          | Some (t', h2) => Some (x' :: t', h2)
-          end
-      end
-  end.
+Definition hcopy_list (fuel : nat) (els : list hval) (h : heap) : option (list hval * heap) :=
+  copy_els (hcopy fuel) els h.
 
 (* `for range repetitions { for _, e := range left.Elements { append(deepCopy(e)) } }` *)
 Fixpoint hrepeat (fuel : nat) (n : nat) (els : list hval) (h : heap) : option (list hval * heap) :=
